@@ -69,8 +69,9 @@ type shimBackend struct {
 	addr      string
 	mu        sync.Mutex
 	conns     map[string]*shimBConn
-	seen      int64 // upgrades served
-	redirects int64 // handshakes answered with a redirect
+	shakes    map[string][]shimShake // every handshake request received, per token
+	seen      int64                  // upgrades served
+	redirects int64                  // handshakes answered with a redirect
 }
 
 var shimUpgrader = websocket.Upgrader{
@@ -83,7 +84,7 @@ func newShimBackend() *shimBackend {
 	if err != nil {
 		panic(err)
 	}
-	b := &shimBackend{l: l, addr: l.Addr().String(), conns: map[string]*shimBConn{}}
+	b := &shimBackend{l: l, addr: l.Addr().String(), conns: map[string]*shimBConn{}, shakes: map[string][]shimShake{}}
 	srv := &http.Server{Handler: http.HandlerFunc(b.serve)}
 	go srv.Serve(l)
 	return b
@@ -103,6 +104,17 @@ func (b *shimBackend) serve(w http.ResponseWriter, r *http.Request) {
 		}
 	}
 	token := r.Header.Get("X-Verif-Conn")
+	b.mu.Lock()
+	b.shakes[token] = append(b.shakes[token], shimShake{Host: r.Host, URI: r.RequestURI})
+	nth := len(b.shakes[token])
+	b.mu.Unlock()
+	if st, _ := strconv.Atoi(r.Header.Get("X-Verif-Decline-First")); st > 0 && nth == 1 {
+		// a server that turns the first handshake down (auth filter, virtual-host check, plain page)
+		w.Header().Set("Content-Type", "text/html")
+		w.WriteHeader(st)
+		w.Write([]byte("<html><body>not here</body></html>"))
+		return
+	}
 	c := &shimBConn{token: token, uri: r.RequestURI, host: r.Host, hdr: r.Header.Clone(),
 		ready: make(chan struct{}), notify: make(chan struct{}), closed: make(chan struct{}), drop: make(chan struct{}), resume: make(chan struct{})}
 	b.mu.Lock()
@@ -291,6 +303,18 @@ func (c *shimBConn) pushOnly(period time.Duration) {
 	}
 }
 
+// shimShake is one websocket handshake request as the backend saw it.
+type shimShake struct{ Host, URI string }
+
+// handshakes returns (and forgets) the handshake requests received for a token.
+func (b *shimBackend) handshakes(token string) []shimShake {
+	b.mu.Lock()
+	defer b.mu.Unlock()
+	out := b.shakes[token]
+	delete(b.shakes, token)
+	return out
+}
+
 // conn returns the backend connection registered under token (nil if none).
 func (b *shimBackend) conn(token string) *shimBConn {
 	b.mu.Lock()
@@ -314,6 +338,7 @@ func (b *shimBackend) conn(token string) *shimBConn {
 func (b *shimBackend) forget(token string) {
 	b.mu.Lock()
 	delete(b.conns, token)
+	delete(b.shakes, token)
 	b.mu.Unlock()
 }
 
